@@ -780,6 +780,126 @@ static void run_buffer(seq_state &st) {
     });
 }
 
+// reusable_storage with a second object: move construction / move assignment / self assignment / capacity()
+static void run_reusable_moves(seq_state &st) {
+    struct pol_t {
+        using S = spy<reusable_storage>;
+        holder<S> h[2];
+        int cur = 0;
+        S &sel(std::size_t) { return *h[cur]; }
+        bool has(std::size_t) { return true; }
+        void destroy() {
+            h[1 - cur].destroy();     // the other object first, then the storage in use
+            h[cur].destroy();
+        }
+    } pol;
+    pol.h[0].make();
+    pol.h[1].make();
+    seq_loop(st, pol, [&](const std::vector<std::string> &w) -> std::string {
+        using S = pol_t::S;
+        int o = 1 - pol.cur;
+        if (w[0] == "mvctor") {
+            // the other object is destroyed and re-constructed from the storage: reusable_storage(reusable_storage &&)
+            pol.h[o].destroy();
+            pol.h[o].make(std::move(*pol.h[pol.cur]));
+            pol.cur = o;
+        } else if (w[0] == "mvassign") {
+            hk::in_region r;
+            *pol.h[o] = std::move(*pol.h[pol.cur]);          // operator=(reusable_storage &&)
+            pol.cur = o;
+        } else if (w[0] == "mvself") {
+            hk::in_region r;
+            S &self = *pol.h[pol.cur];
+            *pol.h[pol.cur] = std::move(self);               // this == &other
+        } else if (w[0] == "swapobj") {
+            pol.cur = o;
+        } else {
+            return "skip";
+        }
+        return w[0] + " cap=" + std::to_string(pol.h[pol.cur]->capacity()) + " ocap=" + std::to_string(pol.h[1 - pol.cur]->capacity());
+    });
+}
+
+// static_storage<N>: its dealloc is a non-static member (it does not model `Storage`); the adaptor supplies the object.
+// With the library's assert compiled in (this translation unit) a frame that does not fit is rejected; the NDEBUG
+// build of the same class lives in h_storage_nd.cpp (namespace cocls_nd) and is reached through these functions.
+namespace ndstat {
+void *nd_make(std::size_t space);
+void nd_destroy(std::size_t space, void *obj);
+void *nd_alloc(std::size_t space, void *obj, std::size_t sz);
+void nd_dealloc(std::size_t space, void *obj, void *p, std::size_t sz);
+char *nd_buf(std::size_t space, void *obj);
+}  // namespace ndstat
+
+template <std::size_t N>
+struct sstat : static_storage<N> {
+    static inline sstat *cur = nullptr;
+    void *alloc(std::size_t sz) {
+        hk::in_region r;
+        last_req = sz;
+        void *p = static_storage<N>::alloc(sz);
+        last_alloc = call_rec{true, p, sz};
+        return p;
+    }
+    static void dealloc(void *p, std::size_t sz) {
+        hk::in_region r;
+        last_dealloc = call_rec{true, p, sz};
+        cur->static_storage<N>::dealloc(p, sz);
+    }
+    char *buf() { return this->_buffer; }
+};
+
+struct ndS {
+    static inline std::size_t space = 0;
+    static inline void *obj = nullptr;
+    void *alloc(std::size_t sz) {
+        hk::in_region r;
+        last_req = sz;
+        void *p = ndstat::nd_alloc(space, obj, sz);
+        last_alloc = call_rec{true, p, sz};
+        return p;
+    }
+    static void dealloc(void *p, std::size_t sz) {
+        hk::in_region r;
+        last_dealloc = call_rec{true, p, sz};
+        ndstat::nd_dealloc(space, obj, p, sz);
+    }
+};
+
+template <std::size_t N>
+static void run_static_asserting(seq_state &st) {
+    struct pol_t {
+        using S = sstat<N>;
+        holder<S> stor;
+        S &sel(std::size_t) { return *stor; }
+        bool has(std::size_t) { return true; }
+        void destroy() { stor.destroy(); }
+    } pol;
+    pol.stor.make();
+    sstat<N>::cur = pol.stor.p;
+    st.ext.push_back(ext_buf{pol.stor->buf(), N});
+    seq_loop(st, pol, nullptr);
+    sstat<N>::cur = nullptr;
+}
+
+static void run_static_ndebug(seq_state &st, std::size_t space) {
+    struct pol_t {
+        using S = ndS;
+        ndS s;
+        S &sel(std::size_t) { return s; }
+        bool has(std::size_t) { return true; }
+        void destroy() {
+            hk::in_region r;
+            ndstat::nd_destroy(ndS::space, ndS::obj);
+            ndS::obj = nullptr;
+        }
+    } pol;
+    ndS::space = space;
+    ndS::obj = ndstat::nd_make(space);
+    st.ext.push_back(ext_buf{ndstat::nd_buf(space, ndS::obj), space});
+    seq_loop(st, pol, nullptr);
+}
+
 static void run_seq(const std::vector<std::string> &w) {
     // case <id> seq <policy> k=v ...
     hk::reset();
@@ -790,7 +910,16 @@ static void run_seq(const std::vector<std::string> &w) {
     std::size_t param = kv.count("p") ? std::strtoul(kv["p"].c_str(), nullptr, 10) : 0;
     const std::string &pol = w[3];
     if (pol == "default") run_maybe_extra<default_storage>(st);
+    else if (pol == "reusable" && st.ex == 0) run_reusable_moves(st);
     else if (pol == "reusable") run_maybe_extra<reusable_storage>(st);
+    else if (pol == "static") {
+        bool asserts = !kv.count("a") || kv["a"] != "0";
+        std::size_t space = param <= 64 ? 64 : param <= 256 ? 256 : 2048;
+        if (!asserts) run_static_ndebug(st, space);
+        else if (space == 64) run_static_asserting<64>(st);
+        else if (space == 256) run_static_asserting<256>(st);
+        else run_static_asserting<2048>(st);
+    }
     else if (pol == "mtsafe") run_maybe_extra<reusable_storage_mtsafe>(st);
     else if (pol == "placement") {
         void *b = std::malloc(param ? param : 1);
